@@ -85,11 +85,45 @@ pub fn cell(spec: &Value) -> Value {
     };
     // second family: names = up to `segs` separator-carrying segments followed by one leaf (reaches e.g. sub/../../x
     // with few tokens)
-    let seg_family = spec["family"] == "segments";
+    let long_family = spec["family"] == "long";
+    let seg_family = spec["family"] == "segments" || long_family;
     let segments: Vec<String> = vec!["/".into(), "\\".into(), "../".into(), "..\\".into(), "./".into(), "sub/".into(), "sub\\".into()];
     let leaves: Vec<String> = vec!["a.txt".into(), "b.txt".into(), "outside.txt".into(), "new.txt".into(), "secret.txt".into(), "..".into(), "srv-evil/secret.txt".into(), "up/old.txt".into(), "newdir/x.txt".into()];
     let mut seg_names: Vec<String> = vec![];
-    if seg_family {
+    if long_family {
+        // third family: names up to and beyond the classic 512-byte request and the NAME_MAX / PATH_MAX limits: every
+        // combination of a long harmless prefix with a base name that stays inside or escapes
+        let root_out = format!("{}/outside.txt", srv.root);
+        let bases: Vec<String> = vec!["a.txt".into(), "new.txt".into(), "../outside.txt".into(), "sub/../../outside.txt".into(), root_out, "..\\outside.txt".into(), "../srv-evil/secret.txt".into(), "../up/long-new.txt".into()];
+        let mut prefixes: Vec<String> = vec![String::new()];
+        for n in [100usize, 254, 255, 256, 490, 2000, 5000] {
+            prefixes.push(format!("{}/", "A".repeat(n)));
+        }
+        for n in [50usize, 250, 1000, 2100] {
+            prefixes.push("./".repeat(n));
+            prefixes.push("/".repeat(n));
+            prefixes.push("\\".repeat(n));
+            prefixes.push(".\\".repeat(n));
+        }
+        for n in [10usize, 80, 700] {
+            prefixes.push("sub/../".repeat(n));
+            prefixes.push("../".repeat(n));
+            prefixes.push("..\\".repeat(n));
+        }
+        for p in &prefixes {
+            for b in &bases {
+                seg_names.push(format!("{p}{b}"));
+            }
+        }
+        for n in [255usize, 256, 480, 500, 1000, 4095, 4096, 4097, 20000] {
+            seg_names.push("B".repeat(n));
+            seg_names.push(format!("../{}", "B".repeat(n)));
+            seg_names.push(format!("{}/../../outside.txt", "B".repeat(n)));
+        }
+        for odd in ["a.txt\n", "a\tb", " a.txt", "a.txt ", "\u{ff0e}\u{ff0e}/outside.txt", "\u{2025}/outside.txt", "..%2foutside.txt", "%2e%2e/outside.txt", "..;/outside.txt"] {
+            seg_names.push(odd.to_string());
+        }
+    } else if seg_family {
         let first = spec["first_seg"].as_u64().unwrap() as usize;
         let segs = spec["segs"].as_u64().unwrap() as usize;
         // all segment strings of length 1..=segs starting with `first`
@@ -152,6 +186,9 @@ pub fn cell(spec: &Value) -> Value {
                 Some(p) => !inside(dir, p),
             };
             let outcome: String;
+            // RFC 2347: a request datagram is at most 512 octets; a longer one is not a request the server has to decode,
+            // so silence is accepted for it (it must still have no effect and serve nothing)
+            let oversize = name.len() + 9 > 512;
             if !write {
                 let r = download(&srv, name.as_bytes(), &[]);
                 c.transitions += 1 + r.block_lens.len() as u64;
@@ -165,7 +202,7 @@ pub fn cell(spec: &Value) -> Value {
                     }
                     c.nontrivial += 1;
                 }
-                if escapes && r.error.is_none() {
+                if escapes && r.error.is_none() && !(oversize && r.first == "none") {
                     viol.push(("escape-not-refused".into(), format!("RRQ {:?} resolves to {:?}, outside {}, but was not answered with an ERROR (first reply {})", name, resolved, dir, r.first)));
                 }
             } else {
@@ -176,7 +213,7 @@ pub fn cell(spec: &Value) -> Value {
                 if r.completed {
                     c.nontrivial += 1;
                 }
-                if escapes && r.error.is_none() {
+                if escapes && r.error.is_none() && !(oversize && r.first == "none") {
                     viol.push(("escape-not-refused".into(), format!("WRQ {:?} resolves to {:?}, outside {}, but was not answered with an ERROR (first reply {})", name, resolved, dir, r.first)));
                 }
             }
@@ -260,6 +297,7 @@ pub fn check(tier: Tier) -> Outcome {
         for first_seg in 0..7 {
             cells.push(json!({"srv": s.to_json(), "prefix": [], "more": 0, "family": "segments", "first_seg": first_seg, "segs": if tier == Tier::Quick { 3 } else { 4 }}));
         }
+        cells.push(json!({"srv": s.to_json(), "prefix": [], "more": 0, "family": "long"}));
         if tier == Tier::Thorough {
             // depth 5/6 on the separator/dot sub-alphabet
             let sub = [0usize, 1, 2, 3, 4, 5, 14];
@@ -274,7 +312,7 @@ pub fn check(tier: Tier) -> Outcome {
     let res = run_cells("c03", cells, &crate::pool_opts(tier));
     let mut out = Outcome::new("C03", "model_checking");
     out.absorb(res, n);
-    out.rule = format!("every filename that is a concatenation of <= {depth} tokens over an {NTOK}-token path alphabet ('/', '\\', '..', '.', existing file, subdirectory, file in it, new name, a file one level up, a sibling directory sharing the served directory's name as prefix, absolute sandbox and served paths, empty, '...', '..\\', '%2e%2e', 'up', 'secret.txt'){}, plus every name made of <= 3 (thorough 4) separator-carrying segments ('/', '\\', '../', '..\\', './', 'sub/', 'sub\\') followed by one of 9 leaves (one with a missing parent directory); each as RRQ and as WRQ, against the real Server on loopback in {} configurations (shared/distinct dirs x overwrite{}); each accepted request is carried to its end. Oracle: served bytes identify a file inside the send directory (every file's content is its own path); tree snapshot before/after shows at most one create/modify inside the receive directory; names a lexical reference resolver puts outside are answered with ERROR and have no effect. non-trivial = requests that transferred data. states = requests, transitions = datagram exchanges.", if tier == Tier::Thorough { ", plus <= 6 tokens over the separator/dot sub-alphabet" } else { "" }, cfgs.len(), if tier == Tier::Thorough { ", plus single-port" } else { "" });
+    out.rule = format!("every filename that is a concatenation of <= {depth} tokens over an {NTOK}-token path alphabet ('/', '\\', '..', '.', existing file, subdirectory, file in it, new name, a file one level up, a sibling directory sharing the served directory's name as prefix, absolute sandbox and served paths, empty, '...', '..\\', '%2e%2e', 'up', 'secret.txt'){}, plus every name made of <= 3 (thorough 4) separator-carrying segments ('/', '\\', '../', '..\\', './', 'sub/', 'sub\\') followed by one of 9 leaves (one with a missing parent directory), plus long names (harmless prefixes of 100..5000 characters and of 50..2100 repeated './', '/', '\\', 'sub/../', '../' segments in front of 8 inside/escaping base names; single components of 255..20000 characters; a few odd spellings); each as RRQ and as WRQ, against the real Server on loopback in {} configurations (shared/distinct dirs x overwrite{}); each accepted request is carried to its end. Oracle: served bytes identify a file inside the send directory (every file's content is its own path); tree snapshot before/after shows at most one create/modify inside the receive directory; names a lexical reference resolver puts outside are answered with ERROR and have no effect. non-trivial = requests that transferred data. states = requests, transitions = datagram exchanges.", if tier == Tier::Thorough { ", plus <= 6 tokens over the separator/dot sub-alphabet" } else { "" }, cfgs.len(), if tier == Tier::Thorough { ", plus single-port" } else { "" });
     out.assumptions = vec!["Linux path semantics; no symlinks planted inside the served directories".into(), "one server per configuration per shard process is reused across requests (the tree is restored after every request)".into()];
     out
 }
